@@ -299,6 +299,50 @@ def w_e2e(job):
                               "expected": _fmt(want), "observed": detail})
     return n, nontriv, fails, counts, outcomes
 
+def w_nested(job):
+    """The operation as an OPERAND of another one whose operand type it already has: `(a OP b) + c` and `c + (a OP b)` with c of
+    the result type.  The operands of the inner operation are converted exactly as when it stands alone."""
+    from nsl import LinearIR as IR
+
+    lo, hi = job
+    fails, counts, outcomes = [], {}, {}
+    n = nontriv = 0
+    for idx in range(lo, hi):
+        op = BINOPS[idx // (14 * 14)]
+        L, R = SPELL[(idx // 14) % 14], SPELL[idx % 14]
+        want = oracle(op, L, R)
+        n += 1
+        if want[0] != "accept" or want[1] not in SPELL or oracle("+", want[1], want[1])[0] != "accept":
+            continue
+        if "m" in (L[0], R[0], want[1][0]):
+            continue      # matrix operations are lowered row by row: no single instruction carries the operand types
+        nontriv += 1
+        T_ = want[1]
+        for side in ("left", "right"):
+            e = f"(a {op} b) + c" if side == "left" else f"c + (a {op} b)"
+            src = f"export function f({show(L)} a, {show(R)} b, {show(T_)} c) -> {show(T_)} {{ return {e}; }}\n"
+            res = compile_src(src)
+            outcomes[res.status] = outcomes.get(res.status, 0) + 1
+            kind = detail = None
+            if not res.ok:
+                kind, detail = "nested-form-not-compiled", res.cls() + " " + (res.msg or "")
+            else:
+                fn = res.module.Functions["f"]
+                bins = [i for i in fn.Instructions if isinstance(i, IR.BinaryInstruction) and len(getattr(i, "Values", ())) == 2]
+                ret = [i for i in fn.Instructions if isinstance(i, IR.ReturnInstruction)][0]
+                inner = [i for i in bins if i is not ret.Value]
+                if len(inner) >= 1:
+                    got = (ir_type(inner[0].Values[0].Type), ir_type(inner[0].Values[1].Type))
+                    if got != (want[2], want[3]) and not (op == "*" and got == (want[3], want[2])):
+                        kind, detail = "wrong-operand-conversion-in-nested-operation", f"inner operation operands have IR types ({show(got[0])}, {show(got[1])})"
+            if kind:
+                key = f"C09|nested|{kind}|op={opclass(op)}|{shape_class(L)},{shape_class(R)}|{side}"
+                counts[key] = counts.get(key, 0) + 1
+                if counts[key] <= 2:
+                    fails.append({"key": key, "part": "nested", "op": op, "left": L, "right": R, "source": src, "expected": _fmt(want), "observed": detail})
+    return n, nontriv, fails, counts, outcomes
+
+
 def w_pairs(job):
     """Two operators on the SAME operand types in ONE module: `first` uses an operator the rule table accepts, `f` any other
     operator; the decision on the module and the type of f's result must be those of f's operator alone."""
@@ -366,6 +410,8 @@ def run(tier, seed):
         jobs.append((w_e2e, (lo, min(te, lo + 80))))
     for lo in range(0, 14 * 14, 7):
         jobs.append((w_pairs, (lo, lo + 7)))
+    for lo in range(0, te, 160):
+        jobs.append((w_nested, (lo, min(te, lo + 160))))
     rot = seed % len(jobs) if seed else 0
     jobs = jobs[rot:] + jobs[:rot]
     res = pool.pmap(_dispatch, jobs)
@@ -410,7 +456,11 @@ def run(tier, seed):
 
 def replay(rec, verbose=True):
     L, R = tuple(rec["left"]), tuple(rec["right"])
-    if rec["part"] == "pairs":
+    if rec["part"] == "nested":
+        idx = BINOPS.index(rec["op"]) * 14 * 14 + SPELL.index(L) * 14 + SPELL.index(R)
+        _, _, fl, _, _ = w_nested((idx, idx + 1))
+        fl = [f for f in fl if f["key"] == rec["key"]]
+    elif rec["part"] == "pairs":
         idx = SPELL.index(L) * 14 + SPELL.index(R)
         _, _, fl, _, _ = w_pairs((idx, idx + 1))
         fl = [f for f in fl if f["key"] == rec["key"]]
